@@ -143,6 +143,46 @@ fn run_cli(s: &Scratch, tag: &str, args: &[std::ffi::OsString], stdin: &[u8], me
     })
 }
 
+/// `rrss parse` on a text, output discarded: Some(how it died) when the tool was killed by a signal or panicked.
+/// None when it ended normally (whatever its verdict on the text), when no tool is configured, or on a time-out
+/// (counted by the caller).  Used by C01 for long flat texts: the tool is a plain build of the repository (debug =
+/// no optimisation at all) running on an ordinary main-thread stack.
+pub fn tool_dies_parsing(src: &str) -> Result<Option<String>, &'static str> {
+    let Some(bin) = std::env::var_os("VCHECK_RRSS_BIN") else { return Err("no_tool_configured") };
+    let s = Scratch::new();
+    let f = s.path("flat.rock");
+    if std::fs::write(&f, src).is_err() {
+        return Err("cannot_write_scratch_file");
+    }
+    let mut child = match Command::new(bin).arg("parse").arg(&f).current_dir(&s.dir).stdin(Stdio::null()).stdout(Stdio::null()).stderr(Stdio::null()).spawn() {
+        Ok(c) => c,
+        Err(_) => return Err("cli_spawn_failed"),
+    };
+    let t0 = Instant::now();
+    let status = loop {
+        match child.try_wait() {
+            Ok(Some(st)) => break st,
+            Ok(None) => {
+                if t0.elapsed() > Duration::from_secs(100) {
+                    let _ = child.kill();
+                    let _ = child.wait();
+                    return Err("cli_timeout");
+                }
+                std::thread::sleep(Duration::from_millis(5));
+            }
+            Err(_) => return Err("cli_wait_failed"),
+        }
+    };
+    use std::os::unix::process::ExitStatusExt;
+    if let Some(sig) = status.signal() {
+        return Ok(Some(format!("was killed by signal {}", sig)));
+    }
+    if status.code() == Some(101) {
+        return Ok(Some("exited with status 101 (panic)".into()));
+    }
+    Ok(None)
+}
+
 fn os(v: &[&str]) -> Vec<std::ffi::OsString> {
     v.iter().map(|s| std::ffi::OsString::from(*s)).collect()
 }
